@@ -163,6 +163,7 @@ func (n *Net) Dial(addr string) (*NetConn, error) {
 	l.mu.Lock()
 	if l.closed {
 		l.mu.Unlock()
+		c.Reset() // the pair never existed as far as either side can tell
 		return nil, errRefused
 	}
 	l.backlog = append(l.backlog, s)
